@@ -169,6 +169,12 @@ func vhC04(a []int, twin bool) {
 		vAssert("C04.signature-carries-signer-key-id-and-is-over-the-standard-bytes",
 			idx >= 0 && signedBy[idx] && vspecSigOver(dsse, sg.Sig, idx, vspecSignedBytes(dsse, origCanon)))
 	}
+	// history: the object is verified once before anything is changed (what was learnt in that call must
+	// not outlive a change of the content)
+	for j := 0; j < 3; j++ {
+		err := md.VerifySignature(vhEdKey(j, false))
+		vAssert("C04.verifies-iff-signed-by-that-key-before-any-change", (err == nil) == signedBy[j])
+	}
 	switch a[2] {
 	case 1:
 		// a new payload value
@@ -200,6 +206,15 @@ func vhC04(a []int, twin bool) {
 		err := md.VerifySignature(vhEdKey(j, false))
 		vObserve("verify", j, err == nil)
 		vAssert("C04.verifies-iff-signed-by-that-key-over-current-content", (err == nil) == (signedBy[j] && !alter))
+	}
+	// ... and the original content assigned again verifies again (legacy wrapper: Signed is an exported field)
+	if mb, isMb := md.(*Metablock); isMb && alter {
+		mb.Signed = Link{Type: "link", Name: "N0", Materials: map[string]HashObj{"m": {"sha256": "ab"}}, Command: []string{"make"},
+			ByProducts: map[string]interface{}{"stdout": orig.ByProducts["stdout"]}}
+		for j := 0; j < 3; j++ {
+			err := md.VerifySignature(vhEdKey(j, false))
+			vAssert("C04.original-content-restored-verifies-again", (err == nil) == signedBy[j])
+		}
 	}
 	// ... also after the metadata was written to disk and loaded back
 	if a[2] == 0 {
